@@ -12,7 +12,7 @@ import (
 // collect runs a suite with a given seed and returns the emitted cases
 func collect(name string, seed uint64, n int, tier string) []Case {
 	var buf bytes.Buffer
-	sub := &ctx{r: &rng{s: seed*0x9e3779b97f4a7c15 + 12345}, n: n, tier: tier, w: bufio.NewWriter(&buf), tagHit: map[string]int{}}
+	sub := &ctx{r: &rng{s: seed*0x9e3779b97f4a7c15 + 12345}, n: n, tier: tier, w: bufio.NewWriter(&buf), tagHit: map[string]int{}, only: -1}
 	suites[name](sub)
 	sub.w.Flush()
 	var out []Case
